@@ -71,7 +71,7 @@ fn replay_one(toks: &[&str]) -> String {
         }
         "C19" => {
             let scratch = c19::scratch();
-            let r = c19::observe(&toks[1..], &scratch);
+            let r = c19::observe(&toks[1..], &scratch, 100);
             common::rm_rf(&scratch);
             r
         }
